@@ -405,8 +405,27 @@ def checkTokens (t : Str) (xs : List Rat) : Option Nat :=
 
 /-! ### ROS bag stamps (`write_bag_trajectory` / `read_bag_trajectory`) -/
 
-/-- `sec = int(stamp // 1)`, `nanosec = int((stamp - sec) * 1e9)`: both float operations rounded -/
+/-- Python `round(v)` of a float: nearest integer, ties to the even one -/
+def roundHalfEven (g : Rat) : Int :=
+  let f := g.floor
+  let d := g - f
+  if d < 1 / 2 then f else if 1 / 2 < d then f + 1 else if f % 2 = 0 then f else f + 1
+
+/-- `write_bag_trajectory` (after the repair of F14): `sec = int(stamp // 1)`,
+`nanosec = int(round((stamp - sec) * 1e9))` — both float operations rounded, `round` half-even —
+and the carry `nanosec == 10**9 → (sec + 1, 0)` -/
 def bagSplit (x : Rat) : Option (Int × Int) :=
+  let sec := x.floor
+  match F64.rne (x - sec) with
+  | none => none
+  | some fr => match F64.rne (fr * 1000000000) with
+    | none => none
+    | some g =>
+      let ns := roundHalfEven g
+      some (if ns = 1000000000 then (sec + 1, 0) else (sec, ns))
+
+/-- the code before the repair: `nanosec = int((stamp - sec) * 1e9)` (truncation) -/
+def bagSplitTrunc (x : Rat) : Option (Int × Int) :=
   let sec := x.floor
   match F64.rne (x - sec) with
   | none => none
